@@ -8,18 +8,17 @@ package main
 
 //
 // Nothing is looked up by the name of an unexported identifier or by the shape of a
-// statement: the key tables of the test helpers are found by their TYPE ([]AttrKey,
-// map[AttrKey]bool), the bitset field of attr.Set by its type, the mask length by its
-// role (the bound of the bit-index loop, else the package's only other integer constant,
-// else the width of attr.Mask), the key limit of SetAttr by calling it in the linked
-// code, the String() texts by calling them. Exported names (AttrKey, Set, Mask, the
-// key constants) are API. What stays syntactic: the ELEMENTS of allKeys / flagKeys are
-// read from their composite literals (constant expressions evaluated by go/types); a
-// table built in init() needs a hook (internal packages cannot be linked by the harness):
-//
-//	// in util/resolve/verifx (build tag verif), with deptest/versiontest exporting the two tables:
-//	func DepTestKeys() (all []dep.AttrKey, flags map[dep.AttrKey]bool)
-//	func VersionTestKeys() (all []version.AttrKey, flags map[version.AttrKey]bool)
+// literal or statement. Values are taken from the linked code (the harness binary is
+// rebuilt from the tree under test with the build tag `verif`): the key tables of the test
+// helpers (deptest / versiontest allKeys and flagKeys, however they are built: literal,
+// init(), helper) through the hooks verifx.DepTestKeys / verifx.VersionTestKeys
+// (/repo fdda9ea; util/resolve/verifx/x.go over VerifKeys() in the two internal packages;
+// add-only, build tag verif; they copy the packages' own tables and are part of the trusted
+// base), the key limit of SetAttr by calling it, the String() texts by calling them.
+// From the type-checked source, by role: the exported AttrKey constants, the bitset field
+// of attr.Set (by its type), the mask length (the bound of the bit-index loop, else the
+// package's only other integer constant, else the width of attr.Mask). Exported names
+// (AttrKey, Set, Mask, the key constants) are API.
 
 import (
 	"fmt"
@@ -57,95 +56,10 @@ type facts struct {
 	MaskBits     int64 // width of attr.Mask
 }
 
-func constValOf(p *packages.Package, e ast.Expr) (int64, bool) { return fw.EvalInt(p, e) }
-
 // attrKeyType reports whether t is the exported named type AttrKey of some package.
 func attrKeyType(t types.Type) bool {
 	nt, ok := t.(*types.Named)
 	return ok && nt.Obj().Name() == "AttrKey" && nt.Obj().Exported()
-}
-
-// varInitOf returns the initialiser of a package-level variable.
-func varInitOf(p *packages.Package, o types.Object) ast.Expr {
-	for _, f := range p.Syntax {
-		for _, d := range f.Decls {
-			gd, ok := d.(*ast.GenDecl)
-			if !ok {
-				continue
-			}
-			for _, sp := range gd.Specs {
-				vs, ok := sp.(*ast.ValueSpec)
-				if !ok {
-					continue
-				}
-				for i, n := range vs.Names {
-					if p.TypesInfo.Defs[n] == o && i < len(vs.Values) {
-						return vs.Values[i]
-					}
-				}
-			}
-		}
-	}
-	return nil
-}
-
-// keysOfVar reads the test helper's table of the given kind, found by its type:
-// "all" is the package-level []AttrKey (or [N]AttrKey), "flags" the map[AttrKey]bool.
-// `var allKeys = []T{pkg.A, ...}`, `var flagKeys = map[T]bool{pkg.A: true}`.
-func keysOfVar(p *packages.Package, kind string) ([]int64, error) {
-	var found []*types.Var
-	for _, n := range p.Types.Scope().Names() {
-		v, ok := p.Types.Scope().Lookup(n).(*types.Var)
-		if !ok {
-			continue
-		}
-		switch u := v.Type().Underlying().(type) {
-		case *types.Slice:
-			if kind == "all" && attrKeyType(u.Elem()) {
-				found = append(found, v)
-			}
-		case *types.Array:
-			if kind == "all" && attrKeyType(u.Elem()) {
-				found = append(found, v)
-			}
-		case *types.Map:
-			if b, ok := u.Elem().Underlying().(*types.Basic); kind == "flags" && attrKeyType(u.Key()) && ok && b.Kind() == types.Bool {
-				found = append(found, v)
-			}
-		}
-	}
-	what := map[string]string{"all": "[]AttrKey", "flags": "map[AttrKey]bool"}[kind]
-	if len(found) != 1 {
-		return nil, fmt.Errorf("%s: expected one package-level variable of type %s, found %d", p.PkgPath, what, len(found))
-	}
-	name := found[0].Name()
-	cl, ok := varInitOf(p, found[0]).(*ast.CompositeLit)
-	if !ok {
-		return nil, fmt.Errorf("%s.%s: not a composite literal (a run-time hook is needed, see facts.go)", p.PkgPath, name)
-	}
-	var out []int64
-	for _, el := range cl.Elts {
-		k := el
-		if kv, ok := el.(*ast.KeyValueExpr); ok {
-			if kind == "all" {
-				return nil, fmt.Errorf("%s.%s: keyed element", p.PkgPath, name)
-			}
-			b, ok := p.TypesInfo.Types[kv.Value]
-			if !ok || b.Value == nil || b.Value.Kind() != constant.Bool {
-				return nil, fmt.Errorf("%s.%s: non-constant value", p.PkgPath, name)
-			}
-			if !constant.BoolVal(b.Value) {
-				continue // a flagKeys entry mapped to false is not a flag
-			}
-			k = kv.Key
-		}
-		v, ok := constValOf(p, k)
-		if !ok {
-			return nil, fmt.Errorf("%s.%s: non-constant element", p.PkgPath, name)
-		}
-		out = append(out, v)
-	}
-	return out, nil
 }
 
 // maskLenOf finds how many mask bits the package uses: the constant bound of its
@@ -251,7 +165,7 @@ func stringerConcat(p *packages.Package) string {
 	return sb.String()
 }
 
-func loadKeyFacts(repo, pkgDir, testDir string, str func(int64) string) (keyFacts, error) {
+func loadKeyFacts(repo, pkgDir string, str func(int64) string, testKeys func() (all []int64, flags map[int64]bool)) (keyFacts, error) {
 	var kf keyFacts
 	p, err := fw.LoadPkg(filepath.Join(repo, pkgDir))
 	if err != nil {
@@ -277,15 +191,14 @@ func loadKeyFacts(repo, pkgDir, testDir string, str func(int64) string) (keyFact
 		}
 		kf.Strs = append(kf.Strs, s)
 	}
-	tp, err := fw.LoadPkg(filepath.Join(repo, testDir))
-	if err != nil {
-		return kf, err
-	}
-	if kf.AllKeys, err = keysOfVar(tp, "all"); err != nil {
-		return kf, err
-	}
-	if kf.FlagKeys, err = keysOfVar(tp, "flags"); err != nil {
-		return kf, err
+	// the test helper's tables, as the linked code holds them: all keys in table order,
+	// flag keys = the keys mapped to true
+	all, flags := testKeys()
+	kf.AllKeys = all
+	for k, isFlag := range flags {
+		if isFlag {
+			kf.FlagKeys = append(kf.FlagKeys, k)
+		}
 	}
 	sort.Slice(kf.FlagKeys, func(i, j int) bool { return kf.FlagKeys[i] < kf.FlagKeys[j] })
 	return kf, nil
@@ -370,12 +283,34 @@ func attrFacts(repo string, f *facts) error {
 func loadFacts(repo string) (*facts, error) {
 	var f facts
 	var err error
-	if f.Dep, err = loadKeyFacts(repo, "util/resolve/dep", "util/resolve/internal/deptest",
-		func(v int64) string { return dep.AttrKey(v).String() }); err != nil {
+	if f.Dep, err = loadKeyFacts(repo, "util/resolve/dep",
+		func(v int64) string { return dep.AttrKey(v).String() },
+		func() ([]int64, map[int64]bool) {
+			all, flags := verifx.DepTestKeys()
+			a, fl := make([]int64, len(all)), map[int64]bool{}
+			for i, k := range all {
+				a[i] = int64(k)
+			}
+			for k, v := range flags {
+				fl[int64(k)] = v
+			}
+			return a, fl
+		}); err != nil {
 		return nil, err
 	}
-	if f.Ver, err = loadKeyFacts(repo, "util/resolve/version", "util/resolve/internal/versiontest",
-		func(v int64) string { return version.AttrKey(v).String() }); err != nil {
+	if f.Ver, err = loadKeyFacts(repo, "util/resolve/version",
+		func(v int64) string { return version.AttrKey(v).String() },
+		func() ([]int64, map[int64]bool) {
+			all, flags := verifx.VersionTestKeys()
+			a, fl := make([]int64, len(all)), map[int64]bool{}
+			for i, k := range all {
+				a[i] = int64(k)
+			}
+			for k, v := range flags {
+				fl[int64(k)] = v
+			}
+			return a, fl
+		}); err != nil {
 		return nil, err
 	}
 	if err = attrFacts(repo, &f); err != nil {
